@@ -42,7 +42,7 @@ logging.disable(logging.CRITICAL)
 
 def plan(tier):
     q = tier == "quick"
-    return [{"name": "main", "examples": 1500 if q else 15000}]
+    return [{"name": "main", "examples": 1500 if q else 150000}]
 
 
 CMD = st.one_of(
